@@ -31,7 +31,7 @@ cls("DatasetStructure", saved_data_description="U", compression="U",
 # library writer and accepted (ghost view of _examples / _buffer / tf writer)
 cls("Writer", nrec="int", closed="bool", path="U")
 cls("Shard", shard_info="ref:ShardInfo", dataset_structure="ref:DatasetStructure",
-    _dataset_path="U", _shard_writer="optref:Writer")
+    _dataset_path="U", _shard_writer="optref:ShardWriterBase")
 cls("ShardProgress", shard="ref:Shard", written_examples="int",
     _order=["shard", "written_examples"], _defaults={"written_examples": "0"})
 cls("_DatasetFillerContext", _dataset_root_path="U", _dataset_structure="ref:DatasetStructure",
@@ -77,3 +77,4 @@ cls("ShardWriterFlatBuffer", base="ShardWriterBase", _examples="list:U", _builde
 cls("ShardWriterTFRec", base="ShardWriterBase", _tf_shard_writer="optref:TFWriter")
 cls("TFWriter", nwritten="int", tfclosed="bool", tfpath="U")
 cls("CompressedFile", compression_type="U")
+cls("ShardWriterNP", base="ShardWriterBase", _buffer="dict:list:U")
